@@ -76,6 +76,25 @@ Theorem C18_schedule_progress : forall s s',
 Proof. intros s s'. split; [apply timer_moves_on|apply restart_goes_first]. Qed.
 Print Assumptions C18_schedule_progress.
 
+(* The trace checker the harness runs on the real runner's event log (runner_trace_ok: exact
+   tracking of the active schedule from the startFirst/startNext hooks, FnStart/FnEnd
+   alternation, nothing before Start or after StopReturned) accepts the visible part of every
+   execution of the model: an alarm of that checker is a behaviour the model does not have. *)
+Theorem C18_checker_accepts_model : forall len ls,
+  1 <= len ->
+  runner_trace_ok len (visible_trace (r_trace (rexec true (rinit len) ls))) = true.
+Proof. exact checker_accepts_model. Qed.
+Print Assumptions C18_checker_accepts_model.
+
+(* ... and it is not vacuous: it rejects a function start carrying another schedule's index,
+   a function start after Stop returned, and a schedule step after Stop returned. *)
+Example C18_checker_rejects :
+  runner_trace_ok 2 [VStart; VNext; VFnStart 1] = false /\
+  runner_trace_ok 2 [VStart; VNext; VFnStart 0; VFnEnd; VNext; VFnStart 1; VFnEnd; VFirst; VFnStart 1] = false /\
+  runner_trace_ok 1 [VStart; VNext; VStopCalled; VStopReturned; VFnStart 0] = false /\
+  runner_trace_ok 2 [VStart; VNext; VFnStart 0; VFnEnd; VNext; VFnStart 1; VFnEnd; VFirst; VFnStart 0; VFnEnd] = true.
+Proof. vm_compute. repeat split. Qed.
+
 (* Non-vacuity: an execution that starts, runs the function twice, is stopped
    while a tick is pending, and ends with Stop returned and the goroutine gone. *)
 Example C18_example :
